@@ -23,13 +23,18 @@ Proof. exact reachable_wf. Qed.
 Print Assumptions C19_reachable_wf.
 
 (* fresh_disjoint (+ copy): a successful construction from object src appends an
-   object that reads exactly like src and shares no location with any object
-   that existed before *)
-Theorem C19_fresh_disjoint : forall s src req s',
-  wf s -> cons_obj s src req = (s', false) ->
+   object that shares no location with any object that existed before.  It reads
+   like what the constructor reads from src: header and rows of src, except that a
+   row whose id occurs as a numeric-string key in src._meta is read through that
+   _meta reference (eff_view_obj) - QLCParser.__init__ keeps the caller's uncopied
+   rows there when the dictionary used keys '1', '2', ...; without such references
+   the new object reads exactly like src *)
+Theorem C19_fresh_disjoint : forall s src req s' osrc,
+  wf s -> nth_error (st_objs s) src = Some osrc -> cons_obj s src req = (s', false) ->
   let n := length (st_objs s) in
   length (st_objs s') = S n
-  /\ view s' n = view s src
+  /\ view s' n = Some (eff_view_obj (st_heap s) osrc)
+  /\ (o_stale osrc = [] -> view s' n = view s src)
   /\ (exists o, nth_error (st_objs s') n = Some o /\ o_kind o = KWl /\
         forall j oj l, j < n -> nth_error (st_objs s') j = Some oj -> In l (obj_locs oj) -> ~ In l (obj_locs o)).
 Proof. exact cons_fresh_copy. Qed.
@@ -55,15 +60,28 @@ Theorem C19_source_unchanged : forall s src req s' ops,
 Proof. exact source_unchanged. Qed.
 Print Assumptions C19_source_unchanged.
 
-(* new_unaffected_by_source: and no such sequence on the source (or any other
-   object) shows in the new object: it keeps reading like the source did when it
-   was copied *)
-Theorem C19_new_unaffected_by_source : forall s src req s' ops,
-  wf s -> cons_obj s src req = (s', false) ->
+(* new_unaffected_by_source: and no such sequence on the source (or on any other
+   object, e.g. the dictionary the _meta references point into) shows in the new
+   object: it keeps reading as it did when it was built - like the source at that
+   time when the source holds no _meta row references *)
+Theorem C19_new_unaffected_by_source : forall s src req s' osrc ops,
+  wf s -> nth_error (st_objs s) src = Some osrc -> cons_obj s src req = (s', false) ->
   Forall (fun o => target o <> Some (length (st_objs s))) ops ->
-  view (run ops s') (length (st_objs s)) = view s src.
+  view (run ops s') (length (st_objs s)) = Some (eff_view_obj (st_heap s) osrc)
+  /\ (o_stale osrc = [] -> view (run ops s') (length (st_objs s)) = view s src).
 Proof. exact new_unaffected_by_source. Qed.
 Print Assumptions C19_new_unaffected_by_source.
+
+(* the unguarded copy statement "a new object reads like its source" is false of the
+   faithful model (and of the code): a dictionary with numeric-string row keys, a
+   wordlist built from it, an assignment on the wordlist, a wordlist built from the
+   wordlist - the last one reads the caller's original row, not the edited one.
+   (Outside the two clauses of C19: nothing the caller owns is written to.) *)
+Theorem C19_copy_fidelity_refuted :
+  exists s src req s',
+    wf s /\ cons_obj s src req = (s', false) /\ view s' (length (st_objs s)) <> view s src.
+Proof. exact copy_fidelity_refuted. Qed.
+Print Assumptions C19_copy_fidelity_refuted.
 
 (* ---------------------------------------------------------------- *)
 (* 2. clustering functions and the matrix *)
@@ -95,6 +113,19 @@ Theorem C19_pure_twice : forall (R : Type) (F : heap_fun R),
     fst (F (snd (F h m)) m) = fst (F h m) /\ mview (snd (F (snd (F h m)) m)) m = mview h m.
 Proof. exact (fun R F Hp He h m Hw => conj (pure_twice R F Hp He h m Hw) (pure_twice_matrix R F Hp h m Hw)). Qed.
 Print Assumptions C19_pure_twice.
+
+(* the same for every modelled matrix function: clustering.flat_cluster (all methods,
+   'ward'), cython/_cluster.flat_cluster as matrix2groups / Wordlist.calculate call it
+   (an unknown method name such as 'ward' included), upgma, neighbor (whose working
+   copy receives the scores): the matrix reads the same after the call, the second call
+   gives the same result, and the matrix still reads the same *)
+Theorem C19_matrix_functions_pure : forall (f : mfun) h m,
+  wfm h m ->
+  mview (snd (mfun_run f h m)) m = mview h m
+  /\ fst (mfun_run f (snd (mfun_run f h m)) m) = fst (mfun_run f h m)
+  /\ mview (snd (mfun_run f (snd (mfun_run f h m)) m)) m = mview h m.
+Proof. exact mfun_pure_twice. Qed.
+Print Assumptions C19_matrix_functions_pure.
 
 (* ---------------------------------------------------------------- *)
 (* 3. the checkers that run on the implementation's observations *)
@@ -138,7 +169,7 @@ Print Assumptions C19_hist_code_zero.
 (* a dictionary with two rows, a wordlist built from it, then on the wordlist:
    a new column computed from column 1, and an assignment *)
 Definition ex_f : list Z -> option Z := fun a => match a with [x] => Some (x + 100)%Z | _ => None end.
-Definition ex_s0 : state := run [ONewDict [1; 2]%Z [(7, [10; 20]); (9, [11; 21])]%Z] empty_state.
+Definition ex_s0 : state := run [ONewDict [1; 2]%Z [(7, [10; 20]); (9, [11; 21])]%Z false] empty_state.
 Definition ex_s1 : state := fst (cons_obj ex_s0 0 [1%Z]).
 Definition ex_ops : list op := [OAdd 1 3%Z (SCols [1%Z]) ex_f false false; OSet 1 9%Z 2%Z 55%Z].
 
@@ -169,6 +200,18 @@ Example sharing_constructor_leaks :
   view (run ex_ops ex_s1_shared) 0 = Some ([1; 2]%Z, [(7, [10; 20; 110]); (9, [11; 55; 111])]%Z)
   /\ sepb (snap_of_state ex_s1_shared) = false.
 Proof. vm_compute. split; reflexivity. Qed.
+
+(* numeric-string row keys: the second wordlist reads the caller's original row 9
+   ([11; 21], not the edited [11; 55]) - and whatever is then done to it leaves the
+   caller's dictionary as written (instances of C19_fresh_disjoint with a non-empty
+   o_stale, and of C19_source_unchanged) *)
+Example ex_meta_row_references :
+  view (run [OAdd 2 3%Z (SDict [(7, 1); (9, 2)]%Z) (fun a => match a with [x] => Some x | _ => None end) false false;
+             OSet 2 7%Z 1%Z 99%Z] (fst (cons_obj sk_s1 1 []))) 0
+  = Some ([1; 2]%Z, [(7, [10; 20]); (9, [11; 21])]%Z)
+  /\ view (fst (cons_obj sk_s1 1 [])) 2 = Some ([1; 2]%Z, [(7, [10; 20]); (9, [11; 21])]%Z)
+  /\ view sk_s1 1 = Some ([1; 2]%Z, [(7, [10; 20]); (9, [11; 55])]%Z).
+Proof. exact sk_dictionary_safe. Qed.
 
 (* a raising operation in the middle (unknown source column: the header is already
    extended when the KeyError comes) does not disturb anything either *)
@@ -202,6 +245,15 @@ Proof. vm_compute. repeat split; reflexivity. Qed.
 Example ex_inplace_changes_matrix :
   mview (snd (flat_cluster_inplace true Upgma (1#2) ex_heap ex_mat)) ex_mat <> mview ex_heap ex_mat.
 Proof. exact inplace_changes_matrix. Qed.
+
+(* neighbor does write - into its working copy; with the copy dropped the caller's
+   matrix holds the scores and the second tree differs *)
+Example ex_neighbor_copy :
+  snd (mfun_run MNeighbor nj_heap nj_mat) <> nj_heap
+  /\ mview (snd (mfun_run MNeighbor nj_heap nj_mat)) nj_mat = mview nj_heap nj_mat
+  /\ mview (snd (neighbor_inplace nj_heap nj_mat)) nj_mat <> mview nj_heap nj_mat
+  /\ fst (neighbor_inplace (snd (neighbor_inplace nj_heap nj_mat)) nj_mat) <> fst (neighbor_inplace nj_heap nj_mat).
+Proof. exact (conj (proj1 neighbor_copy_is_written) (conj (proj2 neighbor_copy_is_written) neighbor_inplace_not_pure)). Qed.
 
 (* flat_cluster_h meets the hypotheses of C19_pure_twice *)
 Example ex_flat_is_pure : forall ward meth thr,
